@@ -26,14 +26,15 @@ LEVEL = "proof"
 ENGINES = ["lean-model", "pyextract", "purediff"]
 LEVEL_TEXT = (
     "STRENGTH partial. Lean theorems for all handlers/causes (unbounded label maps, patterns, registries; induction over "
-    "lists). FULL (unguarded): matchesMetadata_iff/matchesLabels_iff; dedup_nodup/first_kept/sublist/ids_same and "
-    "selected_iff/selected_sound over the code's key (id(fn), id); invoked_sound, unmatched_never_invoked, "
+    "lists). FULL (unguarded): matchesMetadata_iff/matchesLabels_iff; dedup_nodup/first_kept/sublist/ids_same, "
+    "dedup_function_once ('one FUNCTION under one id once': the key is the function's identity since /repo c47dbbf; "
+    "regression theorem bound_method_once_regression) and selected_iff/selected_sound; invoked_sound, unmatched_never_invoked, "
     "matching_due_invoked/matching_invoked_fresh (changing registry, both directions of 'exactly' under the all-at-once "
     "lifecycle, composed with C02); stealth_exact (what a cycle does to an object nothing matches, over the model's Effect "
     "enumeration). UNDER A NAMED GUARD (= open finding, each with a *_witness replayed from the corpus): "
-    "match = documented reading of docs/filters.rst under TokenFree (per handler AND cause: C15-F2 / private token) and "
-    "OldOnlyFree (C15-F1) -- match_eq_doc_partial, _update_partial, _nonchanging_partial, invoked_doc_partial; "
-    "'one FUNCTION under one id once' under OneObjectPerFunction (C15-F7: bound methods) -- dedup_function_once_partial; "
+    "match = documented reading of docs/filters.rst under OldOnlyFree (C15-F1) and TokenFree (per handler AND cause: only "
+    "the abuse of the private absent marker as a criterion; the callback gap C15-F2 is repaired by /repo 07968cf: "
+    "callback_none_regression) -- match_eq_doc_partial, _update_partial, _nonchanging_partial, invoked_doc_partial; "
     "Selector.check = docs/resources.rst except the events.k8s.io exclusion (observation, docs-only) -- "
     "selector_check_iff_partial, resource_criterion_doc_partial; the stealth clause under 'own finalizer absent, nothing "
     "carried in (C15-F5, by design), no lingering daemon (C15-F6)' -- stealth_total_partial, stealth_partial. "
@@ -55,9 +56,9 @@ TIE = ("T (AST -> Lean for match/prematch/_matches_*/all four registry loops inc
 STRENGTH = "partial"   # see LEVEL_TEXT: several clauses hold only under named guards (= open findings) or rest on the tie
 THEOREMS = [("Kopf.Props.C15", "Kopf.C15." + n) for n in (
     "match_eq_doc_partial", "match_eq_doc_update_partial", "match_eq_doc_nonchanging_partial",
-    "doc_gap_old_only_witness", "doc_gap_callback_token_witness", "doc_gap_token_literal_witness",
+    "doc_gap_old_only_witness", "callback_none_regression", "doc_gap_token_literal_witness",
     "matchesMetadata_iff", "matchesLabels_iff", "dedup_nodup", "dedup_first_kept", "dedup_sublist", "dedup_ids_same",
-    "dedup_function_once_partial", "bound_method_twice_witness",
+    "dedup_function_once", "bound_method_once_regression",
     "selected_iff", "selected_sound",
     "selector_check_iff_partial", "resource_criterion_doc_partial", "selector_gap_events_k8s_witness",
     "stealth_exact", "stealth_total_partial", "stealth_partial", "stealth_carried_witness", "stealth_blocked_witness",
@@ -123,10 +124,6 @@ FINDING_CARRIED = {"site": "processing.process_resource_event", "shape": "carrie
                    "what": "a handler's transformation carried over from a rejected JSON-patch is sent to an object that matches nothing any more"}
 FINDING_TOUCH = {"site": "application.apply", "shape": "touch-dummy on an unmatched object",
                  "what": "while a no-longer-matching daemon/timer is exiting, the unmatched finalizer-free object gets (and keeps) the touch-dummy annotation"}
-FINDING_BOUND = {"site": "registries._deduplicated", "shape": "bound method selected twice",
-                 "what": "a bound method registered twice under one id is selected (and invoked) twice: the key is id(fn), a bound method is a new object per access"}
-FINDING_TOKEN = {"site": "registries._matches_field_values/_matches_field_changes", "deviation": "cb_token",
-                 "shape": "field value/old/new callback receives the private _UNSET.token, not None, for an absent field"}
 
 
 # =============================================================================================
@@ -190,7 +187,8 @@ FV_VOCAB = _vocab({
     "callable(handler.value)": "a.valCallable",
     "any(value is not absent for value in values)": "a.anyPresent",
     "any(value is absent for value in values)": "a.anyAbsent",
-    "any(handler.value(value, **kwargs) for value in values)": "a.anyCb",
+    # the callback's argument is `None` for the absent marker (/repo 07968cf): that IS the atom `anyCb`
+    "any(handler.value(None if value is absent else value, **kwargs) for value in values)": "a.anyCb",
     "any(handler.value == value for value in values)": "a.anyEq",
 })
 CHANGE_VOCAB = _vocab({
@@ -207,7 +205,7 @@ def _side_vocab(side: str) -> dict[str, str]:
         f"callable(handler.{side})": "a.callable",
         f"{side} is absent": "a.absentV",
         f"{side} is not absent": "(!a.absentV)",
-        f"handler.{side}({side}, **kwargs)": "a.cb",
+        f"handler.{side}(None if {side} is absent else {side}, **kwargs)": "a.cb",
         f"handler.{side} == {side}": "a.eq",
     })
 
@@ -496,11 +494,17 @@ def extract(ctx: Ctx) -> None:
     keys = [s for s in ast.walk(dd) if isinstance(s, ast.Assign) and pyextract.norm(s.targets[0]) == "key"]
     if len(keys) != 1 or not isinstance(keys[0].value, ast.Tuple):
         raise ExtractError("_deduplicated: the `key = (...)` assignment is gone")
+    # the function's identity (/repo c47dbbf): `fn = handler.fn`, bound methods by instance & function
+    aux = {pyextract.norm(x.targets[0]): pyextract.norm(x.value) for x in ast.walk(dd)
+           if isinstance(x, ast.Assign) and pyextract.norm(x.targets[0]) in ("fn", "fn_key")}
+    if aux != {"fn": "handler.fn",
+               "fn_key": "(id(fn.__self__), id(fn.__func__)) if isinstance(fn, MethodType) else id(fn)"}:
+        raise ExtractError(f"_deduplicated: the function identity is no longer (self, func) for methods / id(fn) otherwise: {aux}")
     fields = []
     for e in keys[0].value.elts:
         t = pyextract.norm(e)
-        if t == "id(handler.fn)":
-            fields.append("fn")
+        if t == "fn_key":
+            fields.append("func")
         elif t == "handler.id":
             fields.append("id")
         else:
@@ -627,8 +631,10 @@ def extract(ctx: Ctx) -> None:
          "if (a.delayTruthy && a.changed) then false else\n    if a.delayNotNone then "
          "(if (a.changed && (!a.delayTruthy)) then false else if a.interrupted then false else true) else\n    false")
     ch = [x for x in abody if isinstance(x, ast.Assign) and pyextract.norm(x.targets[0]) == "changed"]
-    if len(ch) != 1 or pyextract.norm(ch[0].value) != "bool(patch) and (resource_version is None or resource_version != seen_version)":
-        raise ExtractError("application.apply: `changed` is no longer `bool(patch) and (the version moved)`")
+    unk = [x for x in abody if isinstance(x, ast.Assign) and pyextract.norm(x.targets[0]) == "unknown"]
+    if len(ch) != 1 or len(unk) != 1 or pyextract.norm(unk[0].value) != "resource_version is None and remaining_patch is not None" \
+            or pyextract.norm(ch[0].value) != "bool(patch) and (unknown or (resource_version is not None and resource_version != seen_version))":
+        raise ExtractError("application.apply: `changed` is no longer `bool(patch) and (rejected, or the version moved)` (/repo b7bf39c)")
 
     # references.Selector.check: a conjunction of nine parts, each over its own atoms
     ftree = pyextract.parse_file(ctx.repo / "kopf/_cogs/structs/references.py")
@@ -872,7 +878,7 @@ def doc_parts(h: dict, st: dict, dev: frozenset = frozenset()) -> dict | None:
         return a
     # unjudged as soon as the coercion matters under the plain reading or under any named deviation
     # (else a coercion effect would be mis-attributed to, or hidden by, a known finding)
-    for d in (frozenset(), frozenset({"old_counts"}), frozenset({"cb_token"}), frozenset({"old_counts", "cb_token"})):
+    for d in (frozenset(), frozenset({"old_counts"})):
         if doc_parts_eq(h, st, d, py_eq) != doc_parts_eq(h, st, d, strict_eq):
             return None
     return a
@@ -956,7 +962,7 @@ def doc_prematch(h: dict, st: dict, dev: frozenset = frozenset()) -> bool | None
     return None if p is None else all(v for k, v in p.items() if k != "change")
 
 
-DEVIATIONS = [(frozenset({"old_counts"}), FINDING_OLD), (frozenset({"cb_token"}), FINDING_TOKEN)]
+DEVIATIONS = [(frozenset({"old_counts"}), FINDING_OLD)]     # C15-F2 (cb_token) is repaired (/repo 07968cf): no exemption any more
 
 
 def classify(h: dict, st: dict, got: bool, fn: Callable[..., bool | None], site: str) -> dict:
@@ -964,8 +970,6 @@ def classify(h: dict, st: dict, got: bool, fn: Callable[..., bool | None], site:
     for dev, sig in DEVIATIONS:
         if fn(h, st, dev) == got:
             return sig
-    if fn(h, st, frozenset({"old_counts", "cb_token"})) == got:
-        return FINDING_OLD      # needs both deviations: not a finding of its own, attributed to C15-F1
     return {"site": site, "shape": "selected although a declared criterion fails" if got else "not selected although all declared criteria hold"}
 
 
@@ -1508,7 +1512,8 @@ def run_select_case(env: Env, rec: Rec, case: dict, driver_reqs: list, pending: 
         dups = {k for k in got_keys if got_keys.count(k) > 1}
         bound_only = all(hs[i].get("_bound") is not None for i in got_idx if (hs[i]["func"], hs[i]["id"]) in dups)
         rec.oracle_fail(f"one function registered under one id was selected twice: {sorted(dups)}", replay,
-                        FINDING_BOUND if bound_only else {"site": "registries._deduplicated", "shape": "duplicate (function, id) in get_handlers"})
+                        {"site": "registries._deduplicated", "shape": "bound method selected twice" if bound_only
+                         else "duplicate (function, id) in get_handlers"})     # (C15-F7 is repaired: /repo c47dbbf)
     verdicts = [doc_match(h, st) for h in hs]
     if all(v is not None for v in verdicts):
         def want(dev: frozenset) -> set:
@@ -1904,7 +1909,8 @@ async def _one_cycle(env: Env, rec: Rec, case: dict, k: int, step: dict, own_fin
     async def pac(**kw: Any) -> Any:
         obs["applied"].append({"patch": json.loads(json.dumps(dict(kw["patch"]), default=repr)),
                                "fns": [getattr(f, "func", f).__name__ for f in kw["patch"].fns]})
-        return None, None
+        # like the API: a non-empty patch is applied and moves the resourceVersion; an empty one sends nothing
+        return (str(1000 + k), None) if kw["patch"] else (None, None)
 
     async def spawn(**kw: Any) -> Any:
         obs["spawn"] = [str(h.id) for h in kw["handlers"]]
